@@ -6,6 +6,7 @@ import (
 	"flag"
 	"fmt"
 	"strings"
+	"sync"
 	"time"
 
 	predis "github.com/samaritan-proxy/samaritan/proc/redis"
@@ -123,10 +124,15 @@ func pipeline(args []string) error {
 		return nil
 	}
 
+	var wmu sync.Mutex
+	var wclient interface{} // the backend connection whose writer is parked
 	sc := sched.New(func(point string, a, b interface{}) string {
 		switch point {
 		case "client.loopWrite.select":
 			if d := predis.VerifDescribe(a); d.Kind == "client" && d.Addr == node.Addr {
+				wmu.Lock()
+				wclient = a
+				wmu.Unlock()
 				return "W"
 			}
 		case "client.Send.enqueued":
@@ -141,11 +147,31 @@ func pipeline(args []string) error {
 	const stepTO = replyTO
 	park := func() bool {
 		sc.Gate("W")
-		// the writer sits in its select; one request makes it come round to the hook
-		if v, err := conns[0].Do(stepTO, "get", "pr:0"); err != nil || v.IsErr() {
+		// the writer sits in its select - or, on a loaded machine, has not yet come round from the last request and parks
+		// at once; one more request makes it come round to the hook; the queue must be empty when it stays parked
+		e0 := sc.Arrived("E")
+		done := make(chan bool, 1)
+		go func() {
+			v, err := conns[0].Do(stepTO, "get", "pr:0")
+			done <- err == nil && !v.IsErr()
+		}()
+		if !sc.WaitArrived("E", e0+1, stepTO) {
 			return false
 		}
-		return sc.WaitParked("W", stepTO)
+		for i := 0; i < 100; i++ {
+			if !sc.WaitParked("W", stepTO) {
+				return false
+			}
+			wmu.Lock()
+			st, ok := predis.VerifClientStateOf(wclient)
+			wmu.Unlock()
+			if ok && st.Pending > 0 {
+				sc.Release("W") // parked before it took the request: once more round
+				continue
+			}
+			return <-done
+		}
+		return false
 	}
 	unpark := func() { sc.Ungate("W") }
 
